@@ -57,6 +57,13 @@ type Plan struct {
 	// WriteDelayAfter: the pacing of a direction starts only after this many bytes were written in it
 	// (0 = from the start): a fast first message, a slow second one.
 	WriteDelayAfter [2]int64 `json:"write_delay_after,omitempty"`
+	// ClockJump > 0: the link has a clock of its own that runs like the wall clock until ClockJumpAfter bytes (both
+	// directions together) have been written and then jumps ahead by ClockJump: an exchange that takes long (a slow
+	// radio link) without the run taking long. Deadlines set on an end are kept on that clock (a deadline set after
+	// the jump is not affected by it); a Read / Write that begins after its deadline has passed on the link's clock fails
+	// with a time-out error, as a net.Conn's does.
+	ClockJump      time.Duration `json:"clock_jump,omitempty"`
+	ClockJumpAfter int64         `json:"clock_jump_after,omitempty"`
 	// DetectDeadlock enables the logical deadlock detector (only meaningful for strictly
 	// request/response traffic such as B2F).
 	DetectDeadlock bool `json:"detect_deadlock"`
@@ -95,6 +102,11 @@ type Link struct {
 	killed     bool
 	blockedW   [2]bool      // end i blocked in Write (outbound queue full)
 	deadline   [2]time.Time // armed by SetDeadline & co. of end i
+	// the link's own clock (Plan.ClockJump): its lead over the wall clock, and the read / write deadlines of each end
+	// on that clock (zero = none)
+	clockLead time.Duration
+	expR, expW [2]time.Time
+	expired    [2]int // Reads / Writes refused because their deadline had passed on the link's clock
 	fire       [2]bool      // the blocked call of end i must return a timeout
 	timeouts   [2]int
 	blocked    [2]bool // end i blocked in Read
@@ -317,6 +329,13 @@ func (e *End) writeLocked(p []byte) (int, error) {
 	if l.closed[e.idx] {
 		return 0, net.ErrClosed
 	}
+	if l.pastDeadline(l.expW[e.idx]) {
+		l.expired[e.idx]++
+		return 0, errTimeout
+	}
+	if l.plan.ClockJump > 0 && l.clockLead == 0 && l.written[0]+l.written[1]+int64(len(p)) >= l.plan.ClockJumpAfter {
+		l.clockLead = l.plan.ClockJump // time passes: everything written from here on is written that much later
+	}
 	if l.cut && l.plan.CutSilent && !l.killed {
 		return len(p), nil // swallowed by the dead link's buffer
 	}
@@ -399,6 +418,10 @@ func (e *End) Read(p []byte) (int, error) {
 	l.rdCalls[e.idx]++
 	if len(p) == 0 {
 		return 0, nil
+	}
+	if l.pastDeadline(l.expR[e.idx]) && !l.closed[e.idx] {
+		l.expired[e.idx]++
+		return 0, errTimeout
 	}
 	for {
 		if l.closed[e.idx] {
@@ -483,11 +506,45 @@ func (e *End) RemoteAddr() net.Addr { return addr([]string{"B", "A"}[e.idx]) }
 func (e *End) SetDeadline(t time.Time) error {
 	e.l.mu.Lock()
 	e.l.deadline[e.idx] = t
+	e.l.expR[e.idx], e.l.expW[e.idx] = e.l.onLinkClock(t), e.l.onLinkClock(t)
 	e.l.mu.Unlock()
 	return nil
 }
-func (e *End) SetReadDeadline(t time.Time) error  { return e.SetDeadline(t) }
-func (e *End) SetWriteDeadline(t time.Time) error { return e.SetDeadline(t) }
+func (e *End) SetReadDeadline(t time.Time) error {
+	e.l.mu.Lock()
+	e.l.deadline[e.idx] = t
+	e.l.expR[e.idx] = e.l.onLinkClock(t)
+	e.l.mu.Unlock()
+	return nil
+}
+func (e *End) SetWriteDeadline(t time.Time) error {
+	e.l.mu.Lock()
+	e.l.deadline[e.idx] = t
+	e.l.expW[e.idx] = e.l.onLinkClock(t)
+	e.l.mu.Unlock()
+	return nil
+}
+
+// onLinkClock translates a wall-clock deadline into the link's clock (l.mu held).
+func (l *Link) onLinkClock(t time.Time) time.Time {
+	if t.IsZero() || l.plan.ClockJump <= 0 {
+		return time.Time{}
+	}
+	return t.Add(l.clockLead)
+}
+
+// pastDeadline reports whether exp has passed on the link's clock (l.mu held).
+func (l *Link) pastDeadline(exp time.Time) bool {
+	return !exp.IsZero() && time.Now().Add(l.clockLead).After(exp)
+}
+
+// ExpiredDeadlines returns how many Reads / Writes of each end were refused because their deadline had passed on the
+// link's clock.
+func (l *Link) ExpiredDeadlines() [2]int {
+	l.mu.Lock()
+	defer l.mu.Unlock()
+	return l.expired
+}
 
 // ---- modem emulation -------------------------------------------------------------------------
 
